@@ -51,6 +51,9 @@ def formula_of(case):
         rhs = body + " - 1"
     else:
         rhs = body + " + 0"
+    if case.get("group_item"):
+        # a group-specific item next to the common terms: the common-effects matrix is the one of the common terms alone
+        rhs = rhs + " + " + case["group_item"] if not rhs.endswith((" - 1", " + 0")) else case["group_item"] + " + " + rhs
     return "y ~ " + rhs
 
 
@@ -60,6 +63,11 @@ def has_intercept(case):
 
 def frame_of(case):
     spec = frames.factorial_spec(case["levels"], case["reps"], case.get("seed", 0), case.get("catkinds"))
+    if case.get("float_k"):
+        # the integer-coded factor holds floats that are not exactly representable (0.1 * 3, 0.7000000000000001, ...)
+        for c in spec["cols"]:
+            if c["name"] == "k":
+                c["kind"], c["values"] = "float", [v * 0.1 for v in c["values"]]
     return frames.build(spec)
 
 
@@ -242,7 +250,22 @@ def mixed_case(draw, max_terms):
         levels = {"f": 2}
         reps = max(reps, 6)
     style = draw(st.sampled_from(INTERCEPTS))
-    return {"levels": levels, "reps": reps, "seed": draw(st.integers(0, 20)), "catkinds": kinds, "intercept": style, "terms": terms}
+    case = {"levels": levels, "reps": reps, "seed": draw(st.integers(0, 20)), "catkinds": kinds, "intercept": style, "terms": terms}
+    extra = draw(st.sampled_from(["none", "none", "none", "group_item", "group_item", "second_atom", "float_k"]))
+    gfac = sorted(b for b in levels if b != "k")
+    if extra == "group_item" and gfac:
+        case["group_item"] = draw(st.sampled_from(["(1 | %s)", "(x | %s)", "(0 + x | %s)"])) % draw(st.sampled_from(gfac))
+    elif extra == "second_atom":
+        # the same numeric variable through another (linearly independent) atom, in a term over the same variables
+        swap = {"x": "np.exp(x)", "np.exp(x)": "x", "z": "I(z ** 2)", "I(z ** 2)": "z"}
+        cand = [t for t in terms if len(t) >= 2 and any(a in swap for a in t) and any(rc.is_cat(a) for a in t)]
+        if cand:
+            t = draw(st.sampled_from(cand))
+            case["terms"] = terms + [[swap.get(a, a) for a in t]]
+            case["reps"] = reps * 2
+    elif extra == "float_k" and "k" in levels:
+        case["float_k"] = True
+    return case
 
 
 def _mixed_worker(ctx, arg):
